@@ -19,7 +19,7 @@ fn fs_main(in_: Out) -> @location(0) vec4<f32> {
 @compute @workgroup_size(64)
 fn cs_main(@builtin(subgroup_invocation_id) sid: u32, @builtin(subgroup_size) ssz: u32) {
     acc[0] = reduce(sid) + ssz;
-    if (subgroupElect()) { acc[1] = subgroupBallot(true).x; }
+    if (subgroupAny(sid == 0u)) { acc[1] = subgroupBallot(true).x; }
     let d = f64(acc[2]) * 2.0lf;
     acc[3] = u32(d);
 }
